@@ -361,6 +361,14 @@ def copy_discipline(ctx, A, roles, specs, RULE_NAME, floor):
             stk = e.stack
             while len(stk) > 1 and stk[-1][0] not in roles.values() and I.exclusive_helper(stk[-1][0], stk[-2][0]):
                 stk = stk[:-1]
+            if stk[-1][0] not in roles.values():
+                # a helper shared by shrink and grow: in this call stack the copy belongs to the nearest enclosing
+                # inherent shrink / grow (the count is already expressed in that caller's terms)
+                k = len(e.stack)
+                while k > 1 and e.stack[k - 1][0] not in roles.values():
+                    k -= 1
+                if e.stack[k - 1][0] in roles.values():
+                    stk = e.stack[:k]
             frame_fn = stk[-1][0]
             if frame_fn == roles.get('Allocator::shrink'):
                 want_n = app('size', e.state.env.get((stk, 4)))
